@@ -24,7 +24,7 @@ import vlib
 SIG = A.SIG
 KEY_WINDOW = "reload-window-death"
 KEY_ACCEPTED = "accepted-not-started-dropped"
-BIND_CHOICES = [["127.0.0.1:8000"], ["unix:/run/gv/r.sock"], ["127.0.0.1:8001"]]
+BIND_CHOICES = [["127.0.0.1:8000"], ["unix:/run/gv/r.sock"], ["127.0.0.1:8001"], ["127.0.0.1:8000", "unix:/run/gv/r2.sock"]]
 
 
 # ---------------------------------------------------------------------------------------------------------------------
@@ -235,7 +235,7 @@ def judge(case, w):
         if w.closed_ids:
             fails.append(("listener objects %r were closed although the bind address never changed" % (w.closed_ids,), None))
         ids = [w.lid(l) for l in a.LISTENERS]
-        if ids != [0]:
+        if ids != list(range(len(BIND_CHOICES[case["cfg"]["bind"]]))):
             fails.append(("LISTENERS are no longer the objects the master started with: ids %r" % (ids,), None))
         for pid, wk in dict.items(a.WORKERS):
             if [w.lid(l) for l in wk.sockets] != ids:
@@ -280,6 +280,9 @@ def fixed_cases():
     for nw in (0, 1, 2, 3):
         for neww in (0, 1, 2, 4):
             cs.append({"cfg": {"workers": nw, "bind": 0}, "script": boot + [("E", neww, 0), ("S", SIG["HUP"])] + [M] * 40, "kind": "resize"})
+    # two listeners
+    cs.append({"cfg": {"workers": 2, "bind": 3}, "script": boot + [("E", 3, 0), ("S", SIG["HUP"])] + [M] * 40, "kind": "two-binds"})
+    cs.append({"cfg": {"workers": 1, "bind": 3}, "script": boot + [("S", SIG["HUP"])] + [M] * 20 + [("S", SIG["HUP"])] + [M] * 30, "kind": "two-binds"})
     # HUP bursts (the queue holds 5)
     cs.append({"cfg": {"workers": 2, "bind": 0}, "script": boot + [("S", SIG["HUP"])] * 7 + [M] * 150, "kind": "burst", "tail_loops": 10})
     cs.append({"cfg": {"workers": 1, "bind": 0}, "script": boot + [("S", SIG["HUP"]), M, M, M, ("S", SIG["HUP"])] + [M] * 60, "kind": "double"})
@@ -321,7 +324,9 @@ def gen_random(rng):
             if rng.random() < 0.7:
                 script.append(("C",))
         script += [M] * rng.choice([0, 1, 2, 3, 5, 8, 13, 21])
-    return {"cfg": {"workers": nw, "bind": 0}, "script": script, "kind": "random", "crashes": crashes, "tail_loops": 8}
+    rebinds = any(l[0] == "B" for l in script)
+    return {"cfg": {"workers": nw, "bind": 0 if rebinds or rng.random() < 0.7 else 3}, "script": script, "kind": "random",
+            "crashes": crashes, "tail_loops": 8}
 
 
 def describe(case):
